@@ -485,6 +485,43 @@ pub fn run(cfg: &Config) -> i32 {
             }
         }
     }
+    // envelopes built from every documented header component (all singles and pairs of the 13
+    // block-3 tags, all 8 block-5 tags, input headers of 17/18/21 and output headers of 46/47
+    // characters, 8- and 11-character BICs) around corpus bodies
+    {
+        let bodies: Vec<(String, String)> = {
+            let mut seen = std::collections::BTreeSet::new();
+            c.entries
+                .iter()
+                .filter(|e| seen.insert(e.mt.clone()))
+                .filter_map(|e| corpus::block4_of(&e.text).map(|b| (e.mt.clone(), tok::render(&tok::tokenize(&b).fields, false, false))))
+                .collect()
+        };
+        let mut k = cfg.seed as usize;
+        let tags = super::c10::B3_TAGS;
+        let mut sets: Vec<Vec<&str>> = vec![tags.to_vec()];
+        for i in 0..tags.len() {
+            sets.push(vec![tags[i]]);
+            for j in i + 1..tags.len() {
+                sets.push(vec![tags[i], tags[j]]);
+            }
+        }
+        for set in sets {
+            for variant in 0..3 {
+                k += 1;
+                let (mt, b4) = &bodies[k % bodies.len()];
+                let b3: String = set.iter().map(|t| format!("{{{t}:{}}}", super::c10::b3_value(t, k))).collect();
+                let b5: String = super::c10::B5_TAGS.iter().filter(|_| k % 3 != 0).take(1 + k % 8).map(|t| format!("{{{t}:{}}}", super::c10::b5_value(t, k))).collect();
+                let b2 = match variant {
+                    0 => super::c10::block2_input(mt, k, [17, 18, 21][k % 3]),
+                    1 => super::c10::block2_output(mt, k, 46),
+                    _ => super::c10::block2_output(mt, k, 47),
+                };
+                let text = format!("{{1:{}}}{{2:{b2}}}{{3:{b3}}}{{4:\n{b4}\n-}}{}", super::c10::block1(k, k % 2 == 0), if b5.is_empty() { String::new() } else { format!("{{5:{b5}}}") });
+                cases.push(("full/generated-envelope".into(), Case::Full { text }));
+            }
+        }
+    }
     // field level: every corpus content and its tweaks through every type sharing the tag number
     let stride = 1;
     for (i, (tag, content)) in contents.iter().enumerate() {
